@@ -219,8 +219,9 @@ func (r *LogValueRef) IsTopic() bool {
 
 // GetValue retrieves a slice from the log based on the LogValueRef.
 //
-// In case the referenced slice exceeds the log's data length, the
-// result will be zero-padded on the right to the expected length.
+// In case a referenced static data word exceeds the log's data length, the result will be
+// zero-padded on the right to one word. A missing topic and a dynamic data value that is not
+// entirely contained in the log's data yield nil.
 func (r *LogValueRef) GetValue(log *types.Log) []byte {
 	if r.IsTopic() {
 		if uint64(len(log.Topics)) <= r.Offset {
@@ -251,8 +252,10 @@ func (r *LogValueRef) GetValue(log *types.Log) []byte {
 
 // getOffsetDataValue retrieves a "complex" data value from the log based on the LogValueRef.
 //
-// In case a slice of log data is referenced and the slice exceeds the log's data length, the
-// result will be zero-padded on the right to the expected length.
+// The offset word, the length word it points to and the value itself must all lie within the
+// log's data. Offsets and lengths are read from the log and cannot be trusted: if any of them
+// points outside the data, the reference cannot be resolved and nil is returned (as for a
+// missing topic). In particular, never more memory than the log's data is allocated.
 func (r *LogValueRef) getOffsetDataValue(log *types.Log) []byte {
 	// abi encoded log data:
 	// W1: first argument value (simple) or offset_0 (complex)
@@ -272,23 +275,32 @@ func (r *LogValueRef) getOffsetDataValue(log *types.Log) []byte {
 
 	offsetStartByte := dataOffset * Word
 
-	x := log.Data[offsetStartByte : offsetStartByte+Word]
-
-	lengthByteOffset := new(big.Int).SetBytes(x).Uint64()
-	y := log.Data[lengthByteOffset : lengthByteOffset+Word]
-	length := new(big.Int).SetBytes(y).Uint64()
-	value := make([]byte, length)
-	startByte := lengthByteOffset + Word
-	endByte := startByte + length
-
-	if startByte < uint64(len(log.Data)) {
-		availableEnd := uint64(len(log.Data))
-		if endByte < availableEnd {
-			availableEnd = endByte
-		}
-		copy(value, log.Data[startByte:availableEnd])
+	lengthByteOffset, ok := readWordAsUint64(log.Data, offsetStartByte)
+	if !ok {
+		return nil
 	}
+	length, ok := readWordAsUint64(log.Data, lengthByteOffset)
+	if !ok {
+		return nil
+	}
+	// the length word is inside the data, so neither of the following two operations wraps
+	startByte := lengthByteOffset + Word
+	if length > uint64(len(log.Data))-startByte {
+		return nil
+	}
+	value := make([]byte, length)
+	copy(value, log.Data[startByte:startByte+length])
 	return value
+}
+
+// readWordAsUint64 reads the word of data that starts at byte index start as a uint64 (the
+// low 64 bits of the word). It returns false if the word is not entirely contained in data.
+func readWordAsUint64(data []byte, start uint64) (uint64, bool) {
+	dataLen := uint64(len(data))
+	if dataLen < Word || start > dataLen-Word {
+		return 0, false
+	}
+	return new(big.Int).SetBytes(data[start : start+Word]).Uint64(), true
 }
 
 const (
